@@ -23,7 +23,7 @@ ASSUMPTIONS = ["one authentication request (methods none, password, publickey wi
                "signature validity itself is the oracle's answer (C35 / the cryptography library)"]
 EXPLANATION = "User name, key blob, signature bytes, callback results and the oracle verdict are solver variables."
 
-METHODS = ["none", "password", "password-change", "publickey-probe", "publickey", "keyboard-interactive", "bogus-method"]
+METHODS = ["none", "password", "password-change", "publickey-probe", "publickey", "keyboard-interactive", "bogus-method", "gssapi-keyex"]
 
 
 def grant_case():
@@ -55,8 +55,22 @@ def grant_case():
                 label = ctx.choice("signature-label", [A.ALG, "ssh-rsa"])
                 sigblob = _cat(_st.pack(">I", len(label)) + label.encode(), _st.pack(">I", 2), sig)
                 kw = {"sig_attached": True, "keyblob": keyblob, "sig": sigblob}
+            gss_calls = []
+            if method == "gssapi-keyex":
+                kw = {"mic": sig}                     # the MIC: 2 symbolic bytes
             req = A.userauth_request(user, "ssh-connection", wire_method, **kw)
             srv = L.make_server_interface(log, allow_none=False)
+            if method == "gssapi-keyex":
+                # a stub GSS context left behind by a GSS key exchange: the MIC check is an oracle (the same flag as the
+                # signature oracle), the application's own check is consulted afterwards
+                class Ctx:
+                    def ssh_check_mic(self, mic, session_id, username=None):
+                        gss_calls.append((mic, session_id, username))
+                        if not verdict:
+                            raise Exception("GSS: MIC check failed")
+                srv.enable_auth_gssapi = lambda: True
+                srv.check_auth_gssapi_keyex = lambda u, gss_authenticated=AUTH_FAILED, cc_file=None: (
+                    log.append(("check_auth_gssapi_keyex", u, gss_authenticated)), result)[1]
             srv.check_auth_none = lambda u: (log.append(("check_auth_none", u)), result)[1]
             srv.check_auth_password = lambda u, p: (log.append(("check_auth_password", u)), result)[1]
             srv.check_auth_publickey = lambda u, k: (log.append(("check_auth_publickey", u, k)), result)[1]
@@ -84,6 +98,9 @@ def grant_case():
             t = L.make_transport(True, script, srv)
             t._kex_info["null-kex@verif"] = L.make_counting_kex()
             A.install_stub_key(t, verdict)
+            if method == "gssapi-keyex":
+                t.kexgss_ctxt = Ctx()
+                t.gss_kex_used = True
             L.run_transport(t)
             types = L.sent_types(t)
             granted = t.is_authenticated() or t.authenticated or (MSG_USERAUTH_SUCCESS in types)
@@ -94,11 +111,16 @@ def grant_case():
                 ctx.prove(result == AUTH_SUCCESSFUL, "granted=>application-check-returned-success")
                 expect_cb = {"none": "check_auth_none", "password": "check_auth_password", "publickey": "check_auth_publickey",
                              "keyboard-interactive": "check_auth_interactive_response" if iq else "check_auth_interactive",
-                             "bogus-method": "check_auth_none"}.get(method)
+                             "bogus-method": "check_auth_none", "gssapi-keyex": "check_auth_gssapi_keyex"}.get(method)
                 ctx.prove(expect_cb is not None and len(calls) >= 1 and calls[-1][0] == expect_cb,
                           "granted=>the-check-for-this-method-was-consulted")
                 ctx.prove(all((c[1] == user) if len(c) > 1 else True for c in calls), "granted=>check-was-for-this-username")
                 ctx.prove(method not in ("password-change", "publickey-probe"), "probe-or-password-change-never-authenticates")
+                if method == "gssapi-keyex":
+                    ctx.prove(verdict and len(gss_calls) == 1, "granted-gssapi-keyex=>MIC-valid-and-checked-once")
+                    if len(gss_calls) == 1:
+                        ctx.prove(gss_calls[0][0] == sig and gss_calls[0][1] == t.session_id and gss_calls[0][2] == user,
+                                  "MIC-checked-over-this-session's-identifier-and-this-username")
                 if method == "publickey":
                     ctx.prove(verdict, "granted-publickey=>signature-valid")
                     ctx.prove(len(A.StubKey.calls) == 1, "granted-publickey=>signature-checked-once")
